@@ -124,6 +124,31 @@ let () = iter_lines (fun line ->
            let pitch = if pad < 0 then Z0 else z_of_int (int_of_z dw * int_of_z ps + pad) in
            let tr = packed_accesses W ow (if pad < 0 then z_of_int (int_of_z dw * int_of_z ps) else pitch) oh ps ssize bu in
            Printf.printf "ok ow=%d oh=%d %s\n" (int_of_z dw) (int_of_z dh) (bufw 0 (packed_size dw pitch dh ps ssize) tr))
+  | "kv" :: _ ->
+      (* value level: the C loops of jcsample.c / jdsample.c; the SIMD lane model must agree on the same columns *)
+      let unhex h = List.init (String.length h / 2) (fun i -> z_of_int (int_of_string ("0x" ^ String.sub h (2 * i) 2))) in
+      let n = gi t "n" in
+      let avx2 = gs t "isa" = "avx2" in
+      let v = nat_of_int (if avx2 then 32 else 16) in
+      let pad l len = l @ List.init (max 0 (len - List.length l)) (fun _ -> z_of_int 0xEE) in
+      let hex l = String.concat "" (List.map (fun z -> Printf.sprintf "%02x" (int_of_z z)) l) in
+      let r0 = unhex (gs t "r0") and r1 = unhex (gs t "r1") and r2 = unhex (gs t "r2") in
+      let oc = (n + 15) / 16 * 8 in
+      let chk a b = if take (List.length a) b = a then "" else " MODEL-SIMD-LANES-DIFFER" in
+      (match gs t "k" with
+       | "ds1" -> let row = pad r0 (2 * oc + 64) in
+           let c = h2v1_downsample_c row (nat_of_int n) (nat_of_int oc) in
+           Printf.printf "ok %s%s\n" (hex c) (chk c (h2v1_downsample_simd v row (nat_of_int n) (nat_of_int oc)))
+       | "ds2" -> let a = pad r0 (2 * oc + 64) and b = pad r1 (2 * oc + 64) in
+           let c = h2v2_downsample_c a b (nat_of_int n) (nat_of_int oc) in
+           Printf.printf "ok %s%s\n" (hex c) (chk c (h2v2_downsample_simd v a b (nat_of_int n) (nat_of_int oc)))
+       | "fu1" -> let row = pad r0 (n + 64) in
+           let c = h2v1_fancy_c row (nat_of_int n) in
+           Printf.printf "ok %s%s\n" (hex c) (chk c (h2v1_fancy_simd v row (nat_of_int n)))
+       | "fu2" -> let a = pad r0 (n + 64) and b = pad r1 (n + 64) and d = pad r2 (n + 64) in
+           let c0 = h2v2_fancy_c b a (nat_of_int n) and c1 = h2v2_fancy_c b d (nat_of_int n) in
+           Printf.printf "ok %s %s%s%s\n" (hex c0) (hex c1) (chk c0 (h2v2_fancy_simd v b a (nat_of_int n))) (chk c1 (h2v2_fancy_simd v b d (nat_of_int n)))
+       | _ -> print_endline "?")
   | "rs" :: _ ->
       (* whole image through jpeg_read_scanlines(max_lines): every call stays within its rows
          (C11_read_scanlines_rows_within); the calls together deliver the scaled height *)
